@@ -54,6 +54,13 @@ def design_size(D, noisy, fes=None):
     return 2**n
 
 
+def record(**kw):
+    """Like st.fixed_dictionaries, but built from st.tuples: fixed_dictionaries with more than a few keys is rejected
+    by Hypothesis' fuzz_one_input for arbitrary byte strings, tuples are not."""
+    keys = list(kw)
+    return st.tuples(*[kw[k] for k in keys]).map(lambda t: dict(zip(keys, t)))
+
+
 def chance(draw, p):
     """Bernoulli(p) with an unbiased finite sampler (st.floats is heavily biased towards 0)."""
     # hashed so that Hypothesis's preference for boundary values (0, max) does not skew the probability
